@@ -49,6 +49,9 @@ def compare(Ls, Lt, where, prev_sizes):
         if a[:need] != b[:need]:
             pos = next(i for i in range(0, need, bs) if a[i:i + bs] != b[i:i + bs]) // bs
             v.append(dict(kind="concatenation-differs-from-twin", where=where, level=l, first_stripe=pos))
+        elif len(a) != len(b):
+            # same data, same parity: also the same length (a split beyond the end of the parity is empty and recorded as empty)
+            v.append(dict(kind="concatenation-length-differs-from-twin", where=where, level=l, splits=len(a), twin=len(b), recorded=sizes[l]))
         sz = sizes[l]
         if sz is not None:
             for i, s in enumerate(sz):
